@@ -1939,6 +1939,88 @@ class PyCdlib:
 
         return b''
 
+    def _check_new_paths(self, iso_path, rr_name, joliet_path, udf_path,
+                         is_dir):
+        # type: (Optional[str], Optional[str], Optional[str], Optional[str], bool) -> None
+        """
+        An internal method to check, before anything is changed, that a new
+        entry can be added under every one of the given paths: the parents
+        exist, the names are legal and not yet in use.  This is what makes an
+        edit that spans several namespaces all-or-nothing.
+
+        Parameters:
+         iso_path - The ISO9660 path of the new entry (if any).
+         rr_name - The Rock Ridge name that goes with the ISO9660 path.
+         joliet_path - The Joliet path of the new entry (if any).
+         udf_path - The UDF path of the new entry (if any).
+         is_dir - Whether the new entry is a directory.
+        Returns:
+         Nothing.
+        """
+        if iso_path:
+            iso_path_bytes = utils.normpath(iso_path)
+            if not self.rock_ridge and self.enhanced_vd is None:
+                _check_path_depth(iso_path_bytes)
+            (name, parent) = self._iso_name_and_parent_from_path(iso_path_bytes)
+            if not parent.is_dir():
+                raise pycdlibexception.PyCdlibInvalidInput('Could not find path')
+            if is_dir:
+                _check_iso9660_directory(name, self.interchange_level)
+            else:
+                _check_iso9660_filename(name, self.interchange_level)
+            new_rr_name = b''
+            if is_dir or rr_name is not None:
+                new_rr_name = self._check_rr_name(rr_name)
+            if self.rock_ridge and not new_rr_name:
+                raise pycdlibexception.PyCdlibInvalidInput('Rock Ridge name must be supplied for a Rock Ridge new path')
+            try:
+                self._find_iso_record(iso_path_bytes)
+                found = True
+            except pycdlibexception.PyCdlibInvalidInput:
+                found = False
+            if found:
+                raise pycdlibexception.PyCdlibInvalidInput('Failed adding duplicate name to parent')
+            if new_rr_name:
+                # The Rock Ridge children are kept sorted by name.
+                lo = 0
+                hi = len(parent.rr_children)
+                while lo < hi:
+                    mid = (lo + hi) // 2
+                    rr = parent.rr_children[mid].rock_ridge
+                    if rr is not None and rr.name() < new_rr_name:
+                        lo = mid + 1
+                    else:
+                        hi = mid
+                if lo != len(parent.rr_children):
+                    rr = parent.rr_children[lo].rock_ridge
+                    if rr is not None and rr.name() == new_rr_name:
+                        raise pycdlibexception.PyCdlibInvalidInput('Failed adding duplicate Rock Ridge name to parent')
+
+        if joliet_path:
+            joliet_path_bytes = self._normalize_joliet_path(joliet_path)
+            (joliet_name_unused, joliet_parent) = self._joliet_name_and_parent_from_path(joliet_path_bytes)
+            if not joliet_parent.is_dir():
+                raise pycdlibexception.PyCdlibInvalidInput('Could not find path')
+            try:
+                self._find_joliet_record(joliet_path_bytes)
+                found = True
+            except pycdlibexception.PyCdlibInvalidInput:
+                found = False
+            if found:
+                raise pycdlibexception.PyCdlibInvalidInput('Failed adding duplicate name to parent')
+
+        if udf_path:
+            if self.udf_root is None:
+                raise pycdlibexception.PyCdlibInvalidInput('Can only specify a UDF path for a UDF ISO')
+            (udf_name, udf_parent) = self._udf_name_and_parent_from_path(utils.normpath(udf_path))
+            if udf_parent is None or not udf_parent.is_dir():
+                raise pycdlibexception.PyCdlibInvalidInput('Could not find path')
+            tmp_ident = udfmod.UDFFileIdentifierDescriptor()
+            tmp_ident.new(is_dir, False, udf_name, udf_parent)
+            for fi_desc in udf_parent.fi_descs:
+                if not fi_desc.is_parent() and fi_desc.fi.decode(fi_desc.encoding) == tmp_ident.fi.decode(tmp_ident.encoding):
+                    raise pycdlibexception.PyCdlibInvalidInput('Failed adding duplicate name to parent')
+
     def _normalize_joliet_path(self, joliet_path):
         # type: (str) -> bytes
         """
@@ -3297,6 +3379,9 @@ class PyCdlib:
 
         if length > (2**32) - 1 and self.interchange_level < 3:
             raise pycdlibexception.PyCdlibInvalidInput('File sizes for interchange level < 3 must be less than 4GiB')
+
+        # Refuse the whole edit before the first namespace is touched.
+        self._check_new_paths(iso_path, rr_name, joliet_path, udf_path, False)
 
         left = length
         offset = 0
@@ -4811,6 +4896,9 @@ class PyCdlib:
         if file_mode is None:
             file_mode = 0o040555
 
+        # Refuse the whole edit before the first namespace is touched.
+        self._check_new_paths(iso_path, rr_name, joliet_path, udf_path, True)
+
         num_bytes_to_add = 0
         if iso_path is not None:
             iso_path_bytes = utils.normpath(iso_path)
@@ -5422,6 +5510,11 @@ class PyCdlib:
         if joliet_path is not None and self.joliet_vd is None:
             # Rule 9
             raise pycdlibexception.PyCdlibInvalidInput('A Joliet path can only be specified for a Joliet ISO')
+
+        # Refuse the whole edit before the first namespace is touched.
+        self._check_new_paths(symlink_path,
+                              rr_symlink_name if rr_symlink_name is not None else '',
+                              joliet_path, udf_symlink_path, False)
 
         # Checks complete, we can go on to make the symlink.
 
